@@ -452,6 +452,13 @@ func pvc_assert(b bool)          {}
 func pvc_assume(b bool)          {}
 func pvc_havoc[T any](x *T)      {}
 
+func pvc_suffix(a, b []byte) bool {
+	if len(a) == 0 {
+		return true
+	}
+	return len(a) <= len(b) && &a[0] == &b[len(b)-len(a)]
+}
+
 func pvcQuant(f interface{}, all bool) (res bool) {
 	defer func() {
 		if r := recover(); r != nil {
